@@ -114,16 +114,26 @@ def rooted_in_txn_field(ctx, sl, leaves, txn, field_def):
     prog = ctx.prog
     if not leaves:
         return False
+    from .c13 import _owned_structs
+    inner = _owned_structs(prog, txn)
     for x in leaves:
-        if x[0] not in ("param", "xparam") or len(x[2]) != 1:
+        if x[0] not in ("param", "xparam") or len(x[2]) < 1:
             return False
-        if leaf_root_adt(prog, sl.body, x) != txn:
+        # the value may be reached from the transaction itself or from a private struct the transaction holds by value
+        # (a helper method of that struct sees only `self`)
+        cur = leaf_root_adt(prog, sl.body, x)
+        if cur != txn and cur not in inner:
             return False
-        fld = [f for f in prog.adts[txn]["variants"][0]["fields"] if f["name"] == x[2][0]]
-        if not fld:
-            return False
-        t = prog.types[fld[0]["ty"]]
-        if not (t.get("k") == "adt" and norm(t["def"]) == field_def):
+        t = None
+        for nm in x[2]:
+            if nm.startswith("#") or cur not in prog.adts:
+                return False
+            fld = [f for f in prog.adts[cur]["variants"][0]["fields"] if f["name"] == nm]
+            if not fld:
+                return False
+            t = prog.types[fld[0]["ty"]]
+            cur = t.get("def") if t.get("k") == "adt" else None
+        if not (t is not None and t.get("k") == "adt" and norm(t["def"]) == field_def):
             return False
     return True
 
@@ -180,6 +190,8 @@ def publish_provenance(ctx, r):
                     site_where(site), sorted(fmt_leaf(l) for l in dst)), site_where(site))
         if not okd:
             continue
+        from ..prov import expand_down
+        hleaves = expand_down(ctx.world, hsl.body, hleaves)
         ok2 = bool(hleaves)
         for l in hleaves:
             if l[0] == "call" and l[1] == "blake3::Hasher::finalize":
